@@ -332,6 +332,7 @@ func runC21(c *Ctx) {
 		}
 		c.verdictIf(good, P, "neg", "fn=(*AttrCache).InvalidateNegativeInDir selection", p.pos(ind.Pos()), "selects isNegative && isChildOf(path, dir)", "InvalidateNegativeInDir does not select exactly the negative entries that are direct children of the directory")
 	}
+	runC21NegScan(c)
 	// neg-off
 	get := p.Fn("(*AttrCache).Get")
 	cfg := p.Fn("(*AttrCache).ConfigureNegativeCaching")
